@@ -7,6 +7,7 @@
   run/c16.py exhibits actual races.
 -/
 import GojaModel.C16.Lemmas
+import GojaModel.C16.NamesLemmas
 import GojaModel.Generated.C16_Share
 namespace GojaModel.C16
 
@@ -26,59 +27,41 @@ theorem run_isolated_of_table (tbl : List ExecAcc) (h : tableReadonly tbl = true
     (runW tbl I w sched).own r = (runW tbl I w (onlyOf r sched)).own r :=
   runW_isolated_gen h I r sched w w rfl rfl
 
-/-- The regenerated table is, row for row and in order, the audited table in one of its two states: as at the
-pinned commit (template slices shared) or with template arrays cloned per use. Any other row — a new write through a
-receiver, a new escape, a dropped `.clone()`, a changed guard such as a missing `!extensible` — falsifies this. -/
-theorem exec_table_shape : Generated.execAcc = execAccCurrent ∨ Generated.execAcc = safeRows := by decide
+/-- The table regenerated from the CURRENT source is, row for row and in order, the audited table `safeRows`.
+Any other row — a write through a receiver, a new escape, a dropped `.clone()` / `cloneTemplateValues`, a changed guard
+such as a missing `!extensible` — falsifies this. -/
+theorem exec_table_shape : Generated.execAcc = safeRows := by decide
 
-theorem exec_unsafe_rows : ∀ a ∈ Generated.execAcc, a.noSharedWrite = false → a ∈ templateSharedRows := by
-  intro a ha hn
-  rcases exec_table_shape with h | h
-  · exact current_unsafe_rows a (h ▸ ha) hn
-  · rw [safe_of_mem_safeRows a (h ▸ ha)] at hn
-    exact absurd hn (by decide)
+/-- No `exec` method of vm.go (nor a helper method of an instruction type reached from one) writes through its
+receiver or through an alias of a reference-typed field of it, and every escape / call row is an audited one. -/
+theorem exec_table_readonly :
+    tableReadonly Generated.execAcc = true ∧ (∀ a ∈ Generated.execAcc, a.kind = "write" → a.isLocal = true) :=
+  ⟨exec_table_shape ▸ tableReadonly_safeRows, by decide⟩
 
-/-- On the table regenerated from the CURRENT source: no `exec` method (nor a helper method of an instruction type
-reached from one) writes through its receiver or an alias of a reference-typed field of it; every row that is not
-known-safe is one of the two tagged-template rows; hence Program memory is unchanged by every interleaving that does
-not evaluate a tagged template.
-`_partial`: (1) tagged templates are excluded while `templateSharedRows` are in the table (known finding);
-(2) about the access table / sharing machine, see the scope note. -/
-theorem program_readonly_partial :
-    (∀ a ∈ Generated.execAcc, a.kind = "write" → a.isLocal = true) ∧
-    (∀ a ∈ Generated.execAcc, a.noSharedWrite = false → a ∈ templateSharedRows) ∧
-    ∀ (I : Interp) (sched : List (Nat × String)) (w : World), (∀ x ∈ sched, x.2 ≠ "getTaggedTmplObject") →
-      (runW Generated.execAcc I w sched).prog = w.prog := by
-  have h3 : ∀ a ∈ Generated.execAcc, a.noSharedWrite = false → a.ty = "getTaggedTmplObject" :=
-    fun a ha hn => template_rows_ty a (exec_unsafe_rows a ha hn)
-  exact ⟨by decide, exec_unsafe_rows, fun I sched w hs => runW_prog_avoid h3 I sched hs w⟩
+/-- Program is read-only after compile, on the table of the current source and for EVERY schedule: Program memory is
+the same after any interleaving of any instructions run by any number of runtimes, whatever the instructions compute.
+(Table / sharing-machine level, see the scope note.) -/
+theorem program_readonly (I : Interp) (sched : List (Nat × String)) (w : World) :
+    (runW Generated.execAcc I w sched).prog = w.prog :=
+  runW_prog exec_table_readonly.1 I sched w
 
-/-- Isolation on the regenerated table, same exclusion. -/
-theorem run_isolated_partial (I : Interp) (r : Nat) (sched : List (Nat × String)) (w : World)
-    (hs : ∀ x ∈ sched, x.2 ≠ "getTaggedTmplObject") :
+/-- A run's result is a function of the Program and its own Runtime's state: after any interleaving with any other
+runtimes, runtime r's memory equals what it is after running r's instructions alone from the same start. -/
+theorem run_isolated (I : Interp) (r : Nat) (sched : List (Nat × String)) (w : World) :
     (runW Generated.execAcc I w sched).own r = (runW Generated.execAcc I w (onlyOf r sched)).own r :=
-  runW_isolated_avoid (fun a ha hn => template_rows_ty a (exec_unsafe_rows a ha hn)) I r sched hs w w rfl rfl
+  runW_isolated_gen exec_table_readonly.1 I r sched w w rfl rfl
 
-/-- Which of the two it is for the source as it stands: either the whole table is safe (then read-only-ness and
-isolation hold for EVERY schedule), or it is the table of the pinned commit whose unsafe rows are the two
-tagged-template rows of the known finding. -/
-theorem program_readonly_generated :
-    (tableReadonly Generated.execAcc = true ∧
-      ∀ (I : Interp) (r : Nat) (sched : List (Nat × String)) (w : World),
-        (runW Generated.execAcc I w sched).prog = w.prog ∧
-        (runW Generated.execAcc I w sched).own r = (runW Generated.execAcc I w (onlyOf r sched)).own r) ∨
-    (Generated.execAcc = execAccCurrent ∧ ∀ a ∈ templateSharedRows, a ∈ Generated.execAcc ∧ a.noSharedWrite = false) := by
-  rcases exec_table_shape with h | h
-  · refine Or.inr ⟨h, ?_⟩
-    rw [h]
-    decide
-  · have ht : tableReadonly Generated.execAcc = true := h ▸ tableReadonly_safeRows
-    exact Or.inl ⟨ht, fun I r sched w => ⟨runW_prog ht I sched w, runW_isolated_gen ht I r sched w w rfl rfl⟩⟩
+/-- Regression lemma about the mechanism BEFORE fix 85b307c (template slices handed straight to setArrayValues): the
+only unsafe rows of that table were the two tagged-template rows … -/
+theorem template_rows_prefix_witness :
+    (∀ a ∈ execAccPrefix, a.noSharedWrite = false → a ∈ templateSharedRows) ∧
+    (∀ a ∈ templateSharedRows, a ∈ execAccPrefix ∧ a.noSharedWrite = false) :=
+  ⟨current_unsafe_rows, by decide⟩
 
-/-- Isolation really depends on the table: with the tagged-template rows in it (template slots reachable from every
-runtime) there are instruction semantics and a schedule on which runtime 1's result depends on whether runtime 0 ran —
-e.g. runtime 0 freezes the template object, runtime 1 reads the slot's flags. -/
-theorem template_sharing_breaks_isolation_witness :
+/-- … and isolation really depended on them: with the tagged-template rows in the table (template slots reachable
+from every runtime) there are instruction semantics and a schedule on which runtime 1's result depends on whether
+runtime 0 ran — e.g. runtime 0 freezes the template object, runtime 1 reads the slot's flags. -/
+theorem template_sharing_prefix_witness :
     ∃ (I : Interp) (sched : List (Nat × String)) (w : World),
       (runW templateSharedRows I w sched).own 1 0 ≠ (runW templateSharedRows I w (onlyOf 1 sched)).own 1 0 := by
   refine ⟨{ ownNext := fun _ p _ => p, progNext := fun _ _ _ => fun _ => 1 },
@@ -102,14 +85,13 @@ theorem memo_once_single_write (sv : Nat) (sched : List (Nat × Op)) (h : ∀ x 
   intro hne
   exact inv.late2 hne t ht
 
-/-- The schedule of `memo_race_witness`: thread 0 forces the scan to completion, then thread 1 tests the flag. -/
+/-- The schedule of `memo_unsync_prefix_witness`: thread 0 forces the scan to completion, then thread 1 tests the flag. -/
 def raceSched : List (Nat × Op) :=
   [(0, .force), (0, .force), (0, .force), (0, .force), (0, .force), (0, .force), (1, .force), (1, .force)]
 
-/-- The protocol AS CODED (plain flag, no Once: string_imported.go:31-40) has a data race: thread 1's plain read of
-`scanned` is unordered with thread 0's plain write of it.  This is the known finding
-"importedString-lazy-scan-data-race"; the schedule is the replay skeleton. -/
-theorem memo_race_witness (sv : Nat) :
+/-- Regression lemma about the protocol BEFORE fix 7f47297 (plain flag, no Once): it has a data race — thread 1's
+plain read of `scanned` is unordered with thread 0's plain write of it ("importedString-lazy-scan-data-race"). -/
+theorem memo_unsync_prefix_witness (sv : Nat) :
     (∀ x ∈ raceSched, x.2 ≠ Op.raw) ∧ (runM unsyncCfg sv initM raceSched).raced = true :=
   ⟨by decide, rfl⟩
 
@@ -120,7 +102,8 @@ theorem memo_atomic_flag_alone_race_witness (sv : Nat) :
        (0, .force), (1, .force)]).raced = true := rfl
 
 /-- Even with the once-style protocol a client that reads `u` with no check at all (as importedString.StrictEquals
-and asciiString.StrictEquals do today) races with the scanning thread. -/
+and asciiString.StrictEquals did before 7f47297) races with the scanning thread: why `memo_generated_drf` also pins
+that no such reader exists. -/
 theorem memo_raw_reader_race_witness (sv : Nat) :
     (runM onceCfg sv initM
       [(0, .force), (0, .force), (0, .force), (0, .force), (0, .force), (1, .raw), (1, .raw)]).raced = true := rfl
@@ -148,17 +131,62 @@ theorem memo_cell_values (c : Cfg) (sv : Nat) (sched : List (Nat × Op)) :
         simp only [stepM, hpc, loadFlag, readU, setThr] <;> grind
   exact key sched initM (Or.inr rfl)
 
-/-- The protocol regenerated from the CURRENT source is one of the two analysed shapes, with the matching verdict:
-either it is the unsynchronised one (and races on `raceSched`), or it is the once-style one with no raw reader of `u`
-left (and is race free on every schedule).  `_partial`: about the protocol model, see the scope note. -/
-theorem memo_generated_partial :
-    (cfgOfProg Generated.memoProg = some unsyncCfg ∧ ∀ sv, (runM unsyncCfg sv initM raceSched).raced = true) ∨
-    (cfgOfProg Generated.memoProg = some onceCfg ∧
-      (Generated.impAcc.all fun a => !(a.field == "u" && a.sync == "plain" && a.dom == "raw" && a.fn != "importedString.scan")) = true ∧
-      ∀ sv sched, (∀ x ∈ sched, x.2 ≠ Op.raw) → (runM onceCfg sv initM sched).raced = false) := by
-  first
-    | exact Or.inl ⟨by decide, fun sv => rfl⟩
-    | exact Or.inr ⟨by decide, by decide, fun sv sched h => memo_drf sv sched h⟩
+/-- The protocol regenerated from the CURRENT source (scan / ensureScanned / isScanned of string_imported.go) is the
+once-style one, no function of the package reads `u` without a preceding ensureScanned() or flag test, and therefore
+the memo is data-race free for every number of threads, every number of client operations and every schedule.
+(Protocol-model level, see the scope note.) -/
+theorem memo_generated_drf :
+    cfgOfProg Generated.memoProg = some onceCfg ∧
+    (Generated.impAcc.all fun a => !(a.field == "u" && !a.write && a.sync == "plain" && a.dom == "raw")) = true ∧
+    ∀ sv sched, (∀ x ∈ sched, x.2 ≠ Op.raw) → (runM onceCfg sv initM sched).raced = false :=
+  ⟨by decide, by decide, fun sv sched h => memo_drf sv sched h⟩
+
+/-! ### The escape rows of the `names` maps are safe (mechanism level, Names.lean)
+
+The exec table lets `$.names` escape into `stash.names` (aliasing the Program's map) for block scopes and for
+function scopes that are not `extensible`; the writers of a names map are createBinding / deleteBinding
+(Tie.names_writers_expected, Tie.binding_call_sites).  `allH` is the compiler's side of the contract — bindVars only
+ever targets a scope compiled `extensible` (every site sets `extensible: <scope>.dynamic`, Tie.extensible_sites). -/
+
+/-- Under that contract NO sequence of scope entries/exits, per-iteration copies, eval-var declarations and deletions,
+run by ANY number of Runtimes in ANY interleaving, writes a Program-owned names map. -/
+theorem names_program_maps_readonly (bound : Nat) (st : Names.St) (ops : List (Nat × Names.Op))
+    (hb : bound ≤ st.next)
+    (hclean : ∀ id, id < bound → ∀ e ∈ st.maps id, e.deletable = false)
+    (hshape : ∀ rt, ∀ s ∈ st.stacks rt, (s.own = false → s.map < bound) ∧ (s.own = true → bound ≤ s.map ∧ s.map < st.next))
+    (hH : Names.allH bound st ops = true) :
+    ∀ id, id < bound → (Names.run bound st ops).maps id = st.maps id :=
+  (Names.ninv_run ops st ⟨hb, fun _ _ => rfl, hclean, hshape⟩ hH).ro
+
+/-- … and what Runtime r sees of its scope chain (the contents of every names map on it) is not changed by any
+sequence of operations of the OTHER Runtimes: private copies are private, shared maps are never written. -/
+theorem names_others_invisible (bound : Nat) (st : Names.St) (r : Nat) (ops : List (Nat × Names.Op))
+    (hb : bound ≤ st.next)
+    (hclean : ∀ id, id < bound → ∀ e ∈ st.maps id, e.deletable = false)
+    (hshape : ∀ rt, ∀ s ∈ st.stacks rt, (s.own = false → s.map < bound) ∧ (s.own = true → bound ≤ s.map ∧ s.map < st.next))
+    (hpriv : Names.Priv st) (hr : ∀ x ∈ ops, x.1 ≠ r) (hH : Names.allH bound st ops = true) :
+    Names.view (Names.run bound st ops) r = Names.view st r :=
+  Names.others_invisible r ops st ⟨hb, fun _ _ => rfl, hclean, hshape⟩ hpriv hr hH
+
+/-- The contract is needed: if a scope that gets an eval-declared variable aliases the Program's map (an
+`extensible` copy dropped), the Program's map is written and another Runtime sees the binding. -/
+theorem names_alias_write_witness :
+    let st : Names.St := { maps := fun _ => [⟨"a", 0, false⟩], next := 1, stacks := fun _ => [] }
+    let ops : List (Nat × Names.Op) := [(0, .enterFunc 0 false), (1, .enterFunc 0 false), (0, .bindVar "q" true)]
+    (Names.run 1 st ops).maps 0 ≠ st.maps 0 ∧ Names.view (Names.run 1 st ops) 1 ≠ Names.view (Names.run 1 st (Names.onlyOf 1 ops)) 1 := by
+  decide
+
+/-- Read-only shared memory cannot race: a location whose history holds only reads never conflicts with another
+read, whatever the readers know (Symbols — one immutable field, Tie.symbol_immutable —, `importedString.s`,
+instruction fields, names maps under the theorem above). -/
+theorem readonly_location_race_free (h : List Acc) (t : Nat) (K : Nat → Bool) (hr : ∀ a ∈ h, a.wr = false) :
+    conflicts h t K false = false := by
+  unfold conflicts
+  apply Bool.eq_false_iff.mpr
+  intro hc
+  rw [List.any_eq_true] at hc
+  obtain ⟨a, ha, hp⟩ := hc
+  simp [hr a ha] at hp
 
 /-! ### Objects do not cross runtimes -/
 
